@@ -6,8 +6,16 @@ under test in front of it): pickle and cloudpickle store these classes by
 reference (module + qualname), which is exactly the situation the property
 words as "user-defined dtype categories that are importable by name".
 
-The module deliberately contains nothing but plain class statements, so that
-importing it has no side effect on jaxtyping's state.
+The module deliberately contains nothing but plain class statements (and the
+name lists two of them are built from), so that importing it has no side effect
+on jaxtyping's state.
+
+``SetMix`` / ``SetRe`` are categories whose ``dtypes`` come out of an UNORDERED
+collection (the everyday ``list(set(a) | set(b))`` merge idiom): still a
+list / tuple of strings / regexes as documented, but the ORDER of the entries
+is a property of the interpreter (string hashing, PYTHONHASHSEED), not of the
+category.  What such a category - and every annotation narrowed from it by
+nesting - accepts must not depend on that order.
 """
 import re
 
@@ -39,3 +47,20 @@ class FloatRe(AbstractDtype):
     one plain name."""
 
     dtypes = [re.compile(r"float(16|32)$"), "int8"]
+
+
+_small_floats = ["float16", "bfloat16", "float32"]
+_small_ints = ["int8", "int16", "uint8", "uint16"]
+
+
+class SetMix(AbstractDtype):
+    """Union of two name lists, merged through sets (hash order)."""
+
+    dtypes = list(set(_small_floats) | set(_small_ints))
+
+
+class SetRe(AbstractDtype):
+    """A regex and plain names out of one set, as a tuple (hash order; compiled
+    patterns hash by their pattern string)."""
+
+    dtypes = tuple({re.compile(r"float(16|32)$"), "int8", "int32", "uint8", "bool"})
